@@ -26,6 +26,17 @@ class Prov(object):
         self.fn = fn
         self.roots = set(param_names(fn)) if roots is None else set(roots)
         self.defs = {}     # name -> [value exprs]
+        # names bound exactly once to a list/tuple literal (so that `vals = [a, b]; x, y = [f(v) for v in vals]` is seen elementwise)
+        cnt, lit = {}, {}
+        for n in walk_own(fn):
+            if isinstance(n, ast.Assign):
+                for t in n.targets:
+                    for x in ast.walk(t):
+                        if isinstance(x, ast.Name) and isinstance(x.ctx, ast.Store):
+                            cnt[x.id] = cnt.get(x.id, 0) + 1
+                if len(n.targets) == 1 and isinstance(n.targets[0], ast.Name) and isinstance(n.value, (ast.List, ast.Tuple)):
+                    lit[n.targets[0].id] = n.value
+        self.literals = {k: v for k, v in lit.items() if cnt.get(k) == 1}
         for n in walk_own(fn):
             if isinstance(n, ast.Assign):
                 for t in n.targets:
@@ -46,6 +57,11 @@ class Prov(object):
                     and isinstance(n.func.value, ast.Name):
                 for a in n.args:
                     self.defs.setdefault(n.func.value.id, []).append(a)
+            elif isinstance(n, ast.Call) and isinstance(n.func, ast.Attribute) and n.func.attr in FLOW_METHODS \
+                    and isinstance(n.func.value, ast.Attribute) and isinstance(n.func.value.value, ast.Name):
+                # a field of a per-call accumulator object: evals.student.append(v)
+                for a in n.args:
+                    self.defs.setdefault('%s.%s' % (n.func.value.value.id, n.func.value.attr), []).append(a)
         self._memo = {}
 
     def _bind(self, target, value):
@@ -57,11 +73,11 @@ class Prov(object):
                     self._bind(t, v)
             elif isinstance(value, (ast.ListComp, ast.GeneratorExp)) and len(value.generators) == 1 \
                     and isinstance(value.generators[0].target, ast.Name) and not value.generators[0].ifs \
-                    and isinstance(value.generators[0].iter, (ast.Tuple, ast.List)) \
-                    and len(value.generators[0].iter.elts) == len(target.elts):
+                    and isinstance(self._literal(value.generators[0].iter), (ast.Tuple, ast.List)) \
+                    and len(self._literal(value.generators[0].iter).elts) == len(target.elts):
                 # elementwise map over a literal tuple:  a, b = [f(v) for v in (x, y)]  ==  a = f(x); b = f(y)
                 gv = value.generators[0].target.id
-                for t, src in zip(target.elts, value.generators[0].iter.elts):
+                for t, src in zip(target.elts, self._literal(value.generators[0].iter).elts):
                     self._bind(t, nf.subst(value.elt, {gv: src}))
             elif isinstance(value, ast.Call) and nf.callee_name(value) == 'zip' and len(value.args) == len(target.elts):
                 for t, v in zip(target.elts, value.args):
@@ -73,6 +89,11 @@ class Prov(object):
             self._bind(target.value, value)
         elif isinstance(target, ast.Subscript) and isinstance(target.value, ast.Name):
             self.defs.setdefault(target.value.id, []).append(value)
+
+    def _literal(self, e):
+        if isinstance(e, ast.Name) and e.id in getattr(self, 'literals', {}):
+            return self.literals[e.id]
+        return e
 
     def of_name(self, name, _stack=()):
         if name in self._memo:
@@ -95,6 +116,8 @@ class Prov(object):
         for n in ast.walk(expr):
             if isinstance(n, ast.Name) and isinstance(n.ctx, ast.Load):
                 out |= self.of_name(n.id, _stack)
+            elif isinstance(n, ast.Attribute) and isinstance(n.value, ast.Name) and ('%s.%s' % (n.value.id, n.attr)) in self.defs:
+                out |= self.of_name('%s.%s' % (n.value.id, n.attr), _stack)
         return out
 
     def callees_in_chain(self, expr, depth=6):
@@ -230,6 +253,12 @@ def if_chain_containing(node, fn):
 def absent(r, idx, construct, detail, loc='', expected=None, found=None):
     """Report that an expected construct was NOT FOUND.  This is a definite break only when every newly extracted helper
     could be inlined (so the reviewed function was seen whole); otherwise the construct may have moved into a callee."""
+    inlined = (getattr(idx, 'normalization', None) or {}).get('inlined') if idx is not None else None
+    if idx is not None and not getattr(idx, 'unreviewed', None) and inlined:
+        r.undecided(construct, detail + ' [not definite: the code was restructured (newly extracted helpers %s were inlined); the '
+                    'construct may have moved into a form this rule does not read]' % ', '.join(q.rsplit('.', 1)[-1] for q in list(inlined)[:3]),
+                    loc)
+        return
     if idx is not None and getattr(idx, 'unreviewed', None):
         r.undecided(construct, detail + ' [not definite: unreviewed helper(s) %s could not be inlined and may contain it]'
                     % ', '.join(q.rsplit('.', 1)[-1] for q in idx.unreviewed[:3]), loc)
